@@ -7,6 +7,7 @@ import (
 	"strings"
 	"sync"
 	"testing"
+	"testing/synctest"
 
 	"github.com/vektah/gqlparser/v2"
 	gast "github.com/vektah/gqlparser/v2/ast"
@@ -16,6 +17,7 @@ import (
 	"github.com/wundergraph/graphql-go-tools/v2/pkg/vsync"
 
 	"verif/internal/fedlab"
+	"verif/internal/fedorders"
 	"verif/internal/refexec"
 	"verif/internal/vk"
 )
@@ -65,6 +67,10 @@ func families(run *vk.Run) []*family {
 		{"unrelated", `{ topProducts { title seller { name nick } reviews { stars } } users { nick favorite { title } } }`, ``},
 		{"arg default vs explicit", `query Q($t: Int) { me { greeting(times: $t) a: greeting(style: LOUD) friends { nick } } }`, `{"t":3}`},
 		{"same, other value", `query Q($t: Int) { me { greeting(times: $t) a: greeting(style: LOUD) friends { nick } } }`, `{"t":null}`},
+		// variable names that collide with the canonical names the mapper hands out
+		{"two vars a,b in order", `query Q($a: Style, $b: Int) { me { greeting(style: $a, times: $b) } }`, `{"a":"LOUD","b":2}`},
+		{"two vars declared b,a", `query Q($b: Style, $a: Int) { me { greeting(style: $b, times: $a) } }`, `{"b":"LOUD","a":2}`},
+		{"literal then $a", `query Q($a: Int) { me { greeting(style: LOUD, times: $a) } }`, `{"a":2}`},
 	}
 	fa := &family{name: "S-abs", s: abs, u: fedlab.SAbsUniverse(abs), schema: mustSchema(abs.SDL())}
 	fa.layout = fedlab.ByType(abs, 2, func(r fedlab.FieldRef) int {
@@ -80,15 +86,23 @@ func families(run *vk.Run) []*family {
 		{"search+feed", `{ search { __typename ... on Author { name latest { title } } ... on Book { title } } feed { title ... on Post { text by { name } } } }`, ``},
 	}
 	fr := &family{name: "S-req", s: req, u: fedlab.SReqUniverse(req), schema: mustSchema(req.SDL())}
-	fr.layout = fedlab.ByType(req, 2, func(r fedlab.FieldRef) int {
+	// four subgraphs: the two @requires fields of subgraph 1 are fed by different
+	// subgraphs (weight from 2, dims from 3), so their entity fetches share one
+	// dependency (the root fetch) and differ in another
+	fr.layout = fedlab.ByType(req, 4, func(r fedlab.FieldRef) int {
 		switch r.String() {
-		case "Item.shipping", "Item.volume", "Query.boxes", "Box.size", "Box.content":
+		case "Item.shipping", "Item.volume", "Item.summary", "Query.boxes", "Box.size", "Box.content":
 			return 1
+		case "Item.weight", "Maker.label":
+			return 2
+		case "Item.dims":
+			return 3
 		}
 		return 0
-	}, "base2")
+	}, "base4")
 	fr.alpha = []request{
 		{"items", `{ items { id shipping volume maker { label } } }`, ``},
+		{"items both requires", `{ items { shipping volume summary } }`, ``},
 		{"item var", `query Q($i: ID!) { item(id: $i) { sku shipping maker { items { volume } } } }`, `{"i":"i1"}`},
 		{"item renamed", `query Q($k: ID!) { item(id: $k) { sku shipping maker { items { volume } } } }`, `{"k":"i2"}`},
 		{"boxes", `{ boxes { size content { price shipping } } makers { label items { sku } } }`, ``},
@@ -144,6 +158,19 @@ func observe(f *family, q string, vars string, opts fedlab.LabOptions) observati
 	}
 	defer lab.Close()
 	return observeOn(lab, q, vars)
+}
+
+// observeGated: like observeOn, but inside the bubble with every subgraph
+// request parked and released in canonical order, so that a request that is
+// issued before a dependency has completed is issued with the wrong body
+// deterministically (and a wedge is detected).
+func observeGated(lab *fedlab.Lab, q, vars string) observation {
+	x := fedorders.RunOne(lab.Sim, nil, func() any { return observeOn(lab, q, vars) })
+	if x.Stuck {
+		return observation{err: "execution wedged"}
+	}
+	o, _ := x.Obs.(observation)
+	return o
 }
 
 func observeOn(lab *fedlab.Lab, q, vars string) observation {
@@ -240,6 +267,10 @@ func labOptions(set []string) (fedlab.LabOptions, func(*fedlab.Lab)) {
 func TestCheck(t *testing.T) {
 	run := vk.Start("C09", "exploration")
 	defer run.Finish()
+	synctest.Test(t, func(t *testing.T) { check(t, run) })
+}
+
+func check(t *testing.T, run *vk.Run) {
 	run.Rule("(a) (layout, operation) x map iteration orders {all ascending, all descending, each range site that saw >1 keys flipped alone}; (b) request histories <= n over a plan-cache-colliding alphabet x all subsets of {multi-fetch, schedule-fetches, minify, single-fetch de-duplication off} on one shared engine; distinct = distinct observations (response, request multiset)")
 	run.Assume("the only process-dependent input of planning is Go's map iteration order, which the overlay turns into a controlled input at every range-over-map site of plan, postprocess and astnormalization",
 		"responses are compared as JSON values with errors as a multiset; request logs as multisets")
@@ -393,6 +424,30 @@ func expected(f *family, r request) observation {
 	return o
 }
 
+// referenceData: what a single server owning all data answers (R1) - the
+// fresh default engine must agree with it, otherwise "equal to the fresh
+// engine" would be satisfied by two equally wrong engines.
+func referenceData(f *family, r request) (string, bool) {
+	opName := ""
+	if strings.Contains(r.query, "query Q") {
+		opName = "Q"
+	}
+	doc, errs := gqlparser.LoadQuery(f.schema, r.query)
+	if errs != nil {
+		return "", false
+	}
+	vars := map[string]any{}
+	if r.vars != "" {
+		m, err := refexec.DecodeObject([]byte(r.vars))
+		if err != nil {
+			return "", false
+		}
+		vars = m
+	}
+	res := refexec.Execute(f.schema, doc, fedlab.Mono{U: f.u}, refexec.Options{OperationName: opName, Variables: vars, Root: fedlab.RootObj("Query")})
+	return refexec.Canon(res.Data), true
+}
+
 func judgeHistory(run *vk.Run, f *family, set []string, h []int, verbose bool) {
 	lo, post := labOptions(set)
 	lab, err := fedlab.NewLab(f.layout, f.u, lo)
@@ -410,6 +465,15 @@ func judgeHistory(run *vk.Run, f *family, set []string, h []int, verbose bool) {
 	for step, i := range h {
 		r := f.alpha[i]
 		want := expected(f, r)
+		if step == 0 && len(h) == 1 && len(set) == 0 {
+			if ref, ok := referenceData(f, r); ok && want.err == "" {
+				if m, err := refexec.DecodeObject([]byte(want.resp)); err == nil && refexec.Canon(m["data"]) != ref {
+					run.Violate(vk.Violation{Clause: "renaming variables or serving a cached plan never changes the response a client receives", Site: "the fresh default engine disagrees with the reference executor: " + r.name, Class: f.name,
+						Detail: fmt.Sprintf("request %s variables %s\nfresh default engine: %s\nreference data: %s", r.query, r.vars, want.resp, ref),
+						Input:  map[string]any{"part": "b", "family": f.name, "options": set, "hist": h}})
+				}
+			}
+		}
 		got := observeOn(lab, r.query, r.vars)
 		if verbose {
 			fmt.Printf("step %d %s\n  got:  %s %s\n  want: %s %s\n", step, r.name, got.resp, got.err, want.resp, want.err)
